@@ -509,6 +509,21 @@ def unit_bounded(U):
             pass
         except Exception as e:
             fails.append({"case": {"id_spec": repr(spec), "attributes": attrs}, "expected": "ValueError", "observed": repr(e)})
+    # auto-numbered keys stay unique and go on counting when id-less features arrive in later update() calls,
+    # starting from a database that has handed out no generated key yet / some already
+    for first in ([("gene", {"ID": ["g"]})], [("gene", {"ID": ["g"]}), ("exon", {})]):
+        cases += 1
+        try:
+            db = gffutils.create_db([_mk("c", ft, dict(a)) for ft, a in first], ":memory:", id_spec="ID")
+            db.update([_mk("c", "exon", {}), _mk("c", "exon", {})], make_backup=False)
+            db.update([_mk("c", "exon", {})], make_backup=False)
+            got = sorted(f.id for f in db.all_features())
+            n0 = sum(1 for ft, a in first if not a)
+            exp = sorted(["g"] + ["exon_%d" % i for i in range(1, n0 + 4)])
+            if got != exp:
+                fails.append({"case": {"initial": first, "then": "update([exon, exon]); update([exon])"}, "expected": exp, "observed": got})
+        except Exception as e:
+            fails.append({"case": {"initial": first, "then": "update([exon, exon]); update([exon])"}, "expected": "unique keys exon_1..", "observed": repr(e)})
     U.bounded_result("C04.bounded.files", "keys in input order == id_spec keys / '<featuretype>_<n>' numbering; unique; db[key] exact; absent raises",
                      "%d generated feature lists (<= 8 features, id_spec ['ID','Name'])" % n, cases, fails)
 
